@@ -16,6 +16,7 @@ import (
 	seg "github.com/scionproto/scion/pkg/segment"
 	"github.com/scionproto/scion/private/segment/segverifier"
 	"github.com/scionproto/scion/private/trust"
+	"github.com/scionproto/scion/private/trust/compat"
 	"verifharness/internal/pki24"
 )
 
@@ -62,10 +63,11 @@ func main() {
 	good := mk(now.Add(-time.Hour), 10)        // lifetime inside the certificate
 	long := mk(now.Add(-time.Minute), 255)     // 24 h lifetime: outlives the certificate
 	for _, withCache := range []bool{false, true} {
-		v := trust.Verifier{Engine: pki24.Provider(d)}
+		tv := trust.Verifier{Engine: pki24.Provider(d)}
 		if withCache {
-			v.Cache = cache.New(time.Minute, time.Minute)
+			tv.Cache = cache.New(time.Minute, time.Minute)
 		}
+		v := compat.Verifier{Verifier: tv}
 		fmt.Println("cache", withCache)
 		fmt.Println("  long first:", segverifier.VerifySegment(ctx, v, nil, long) == nil)
 		fmt.Println("  good:", segverifier.VerifySegment(ctx, v, nil, good) == nil)
